@@ -12,6 +12,7 @@ ITEMS = {
     4: {"id": "t4", "type": "field_name_prefix", "prefix": "p_", "rule_conditions": [{"type": "processing_state", "key": "index", "val": "win"}]},
     5: {"id": "t5", "type": "field_name_suffix", "suffix": "_s"},
     6: {"id": "t6", "type": "value_placeholders"},
+    7: {"id": "t7", "type": "nest", "items": [{"id": "t7i", "type": "value_placeholders"}]},
 }
 # converted in addition where the reference definition fills placeholders AND defines variable k1
 PROBE_PH = {"title": "ph", "logsource": {"category": "c", "product": "linux"}, "detection": {"sel": {"fieldP|expand": "x%k1%y"}, "condition": "sel"}}
@@ -57,8 +58,18 @@ def backend_with(cls_pipe=None, fmt_pipe=None, fmt_name="test"):
     return type("ComposeBackend", (TextQueryTestBackend,), attrs)
 
 
+def _fills(refdef):
+    return 6 in refdef["items"] or 7 in refdef["items"]
+
+
 def _probes(refdef):
-    return PROBES + ([PROBE_PH] if 6 in refdef["items"] and any(k == 1 for k, _ in refdef["vars"]) else [])
+    return PROBES + ([PROBE_PH] if _fills(refdef) and any(k == 1 for k, _ in refdef["vars"]) else [])
+
+
+def _ph_outcome(backend, fmt, via_rule):
+    """The placeholder probe on its own (where the reference definition does NOT define its variable it must fail)."""
+    r = _convert(backend, fmt, via_rule, [PROBE_PH])
+    return ["ok"] + [q for p in r["out"] for q in p] if r["ok"] else ["failed", cps(r["exc"])]
 
 
 def _convert(backend, fmt="default", via_rule=False, probes=PROBES):
@@ -230,8 +241,12 @@ def drive_case(case):
     ref_applied = list(rb.last_processing_pipeline.applied) if getattr(rb, "last_processing_pipeline", None) is not None else []
     raw = _convert(Plain(mkpipe(refdef, with_stages=False)), fmt, via_rule, probes)
     ref_state = _apply_state(mkpipe(refdef)) if composed is not None else []
+    ph = [[], []]
+    if compose_error is None and _fills(case["ref"]) and not any(k == 1 for k, _ in case["ref"]["vars"]):
+        ph = [_ph_outcome(b, fmt, via_rule), _ph_outcome(Plain(mkpipe(refdef)), fmt, via_rule)]
     return {
         "id": case["id"],
+        "ph": ph,
         "case": {k: case[k] for k in ("op", "operands", "tree", "ref")},
         "got": got,
         "ref": ref,
